@@ -262,6 +262,6 @@ def run(chk):
     chk.floor("R1", 4)
     chk.floor("R2", 2)
     chk.floor("R3", 5)
-    chk.floor("R4", 10)
+    chk.floor("R4", 10, default=2)  # the four lock wrappers (two methods each) exist only with the `tokio` feature
     chk.assumptions = ["user-written stores implement the documented lookup contract (match by id list and RP ID)",
                        "the first element of the store's result is the store's preferred credential"]
